@@ -228,3 +228,58 @@ Proof.
   intros Hf Hwf. unfold sc_statement_output. rewrite Hwf. eexists. split; [reflexivity|].
   apply (run_swisscard_ok flag acct _ _ Hf). apply import_swisscard_spec, Hwf.
 Qed.
+
+(* ---------------------------------------------------------------- ch.cumulus *)
+Lemma cum_comment_row_spec r : cum_is_comment r = true -> r = cum_comment_row (field r 2) /\ is_empty (field r 2) = false.
+Proof.
+  unfold cum_is_comment. destruct r as [|f0 [|f1 [|f2 [|f3 [|f4 [|f5 r]]]]]]; try discriminate.
+  intros H. apply andb_prop in H. destruct H as [H H4]. apply andb_prop in H. destruct H as [H H3].
+  apply andb_prop in H. destruct H as [H H2]. apply andb_prop in H. destruct H as [H0 H1].
+  destruct f0; [|discriminate H0]. destruct f1; [|discriminate H1]. destruct f3; [|discriminate H3]. destruct f4; [|discriminate H4].
+  apply negb_true_iff in H2. split; [reflexivity|exact H2].
+Qed.
+
+Lemma cum_parse_spec recs : forall cs es, cum_parse recs = Some (cs, es) ->
+  recs = map cum_comment_row cs ++ flat_map cum_records es /\ forallb cum_wf_entry es = true.
+Proof.
+  induction recs as [|r rest IH]; intros cs es H; cbn [cum_parse] in H.
+  - injection H as <- <-. split; reflexivity.
+  - destruct (cum_parse rest) as [[cs' es']|]; [|discriminate H].
+    destruct (IH cs' es' eq_refl) as [Hrest Hwf].
+    destruct (cum_is_comment r) eqn:Hc.
+    { injection H as <- <-. destruct (cum_comment_row_spec r Hc) as [Hr _]. split; [|exact Hwf].
+      cbn [map app]. rewrite <- Hr, <- Hrest. reflexivity. }
+    destruct (cum_wf_entry (CumBooking r cs')) eqn:Hb.
+    { injection H as <- <-. split; [|cbn [forallb]; rewrite Hb, Hwf; reflexivity].
+      cbn [map app flat_map cum_records]. rewrite <- ?app_assoc, <- Hrest. reflexivity. }
+    destruct (cum_wf_entry (CumRounding r cs')) eqn:Hr.
+    { injection H as <- <-. split; [|cbn [forallb]; rewrite Hr, Hwf; reflexivity].
+      cbn [map app flat_map cum_records]. rewrite <- ?app_assoc, <- Hrest. reflexivity. }
+    destruct cs' as [|c cs']; [|discriminate H].
+    destruct (cum_wf_entry (CumIgnored r)) eqn:Hi; [|discriminate H].
+    injection H as <- <-. split; [|cbn [forallb]; rewrite Hi, Hwf; reflexivity].
+    cbn [map app flat_map cum_records]. rewrite Hrest. reflexivity.
+Qed.
+
+Lemma cum_builder_directives acct e : map (cum_txn acct) (cum_builder e) = cum_entry_directives acct e.
+Proof. destruct e; reflexivity. Qed.
+
+Lemma import_cumulus_spec acct es : forallb cum_wf_entry es = true ->
+  import_cumulus acct (map CRec (flat_map cum_records es)) = MOk (flat_map (cum_entry_directives acct) es).
+Proof.
+  intros Hwf. unfold import_cumulus. rewrite (cum_loop_entries es [] Hwf). cbn [mbind].
+  rewrite app_nil_r, rev_involutive. f_equal.
+  induction es as [|e es IH]; [reflexivity|]. cbn [forallb] in Hwf. apply andb_prop in Hwf. destruct Hwf as [_ Hwf].
+  cbn [flat_map]. rewrite map_app, cum_builder_directives, (IH Hwf). reflexivity.
+Qed.
+
+Theorem cumulus_stdout flag acct recs :
+  account_flag flag = AAcc acct -> cum_statement_wf recs = true ->
+  exists out, cum_statement_output acct recs = Some out /\ run_cumulus flag (map CRec recs) = mkRun out SOk.
+Proof.
+  intros Hf Hwf. unfold cum_statement_wf in Hwf. unfold cum_statement_output.
+  destruct (cum_entries recs) as [es|] eqn:He; [|discriminate Hwf]. eexists. split; [reflexivity|].
+  unfold cum_entries in He. destruct (cum_parse recs) as [[[|c cs] es']|] eqn:Hp; try discriminate He. injection He as ->.
+  destruct (cum_parse_spec recs [] es Hp) as [Hrecs Hes]. cbn [map app] in Hrecs. subst recs.
+  apply (run_cumulus_ok flag acct _ _ Hf). apply import_cumulus_spec, Hes.
+Qed.
